@@ -24,6 +24,7 @@ import (
 	"os"
 	"path/filepath"
 	"regexp"
+	"runtime"
 	"sort"
 	"strconv"
 	"strings"
@@ -115,6 +116,14 @@ func (w *capWriter) WriteEvent(e interface{}) {
 	w.WriteEventWithTimestamp(e, time.Time{})
 }
 func (w *capWriter) WriteEventWithTimestamp(e interface{}, ts time.Time) {
+	if ev, ok := e.(*evpb.Ev_EnvironmentEvent); ok && ev.Message == "running DESTROY hooks" {
+		// TeardownEnvironment has just been handed the first TasksReleasedEvent and is about to
+		// register a fresh pending-teardown channel, while the manager's event loop may not yet
+		// have closed-and-deleted the old registration — done late, that delete removes the
+		// FRESH one and the teardown waits for ever (a race in the core, recorded under C06).
+		// The harness does not race it: it waits here until the loop is back at its receive.
+		syncEnvmanLoop()
+	}
 	cs := cur.Load()
 	if cs == nil {
 		return
@@ -542,14 +551,20 @@ func Run(input string, paced bool) (string, error) {
 			// The manager's event loop closes and forgets the pending-teardown channel only AFTER
 			// TeardownEnvironment has returned; a teardown requested right away would have its fresh
 			// registration deleted by that late cleanup (see DESIGN: finding "teardown retry race").
-			// The harness does not race it.
-			time.Sleep(3 * time.Millisecond)
+			// The harness does not race it: it waits until the registration is gone.
+			if err := waitNoPendingTeardown(id); err != nil {
+				return "", err
+			}
 		}
 		rec.add(sx.L(sx.A("R"), classify(rerr), sx.A(env.CurrentState()), sx.U64(uint64(env.GetCurrentRunNumber())),
 			varsOf(env), pendingOf(env), sx.B(gone)))
 	}
-	// let floating probe calls finish (they take 300µs) before the trace is cut
-	time.Sleep(2 * time.Millisecond)
+	// let floating probe calls finish before the trace is cut: every goroutine spawned by
+	// callable.(*Call).Start must be parked in its select (call executed, result waiting to be
+	// awaited or cancelled) — not runnable, not inside the call
+	if err := waitCallsQuiescent(); err != nil {
+		return "", err
+	}
 	tr := sx.L()
 	tr.List = rec.take()
 	if !gone {
@@ -559,9 +574,60 @@ func Run(input string, paced bool) (string, error) {
 		cs.relMu.Unlock()
 		cur.Store(nil)
 		_ = envman.TeardownEnvironment(id, true)
-		time.Sleep(3 * time.Millisecond)
+		if err := waitNoPendingTeardown(id); err != nil {
+			return "", err
+		}
 	}
 	return tr.String(), nil
+}
+
+// syncEnvmanLoop returns once the environment manager's event loop has finished whatever it was
+// doing: a no-op event is accepted only when the loop is back at its receive.
+func syncEnvmanLoop() {
+	select {
+	case evCh <- &event.RoleEvent{}:
+	case <-time.After(30 * time.Second):
+	}
+}
+
+func waitCallsQuiescent() error {
+	deadline := time.Now().Add(30 * time.Second)
+	buf := make([]byte, 4<<20)
+	for {
+		n := runtime.Stack(buf, true)
+		busy := false
+		for _, g := range strings.Split(string(buf[:n]), "\n\n") {
+			if !strings.Contains(g, "callable.(*Call).Start.func1") {
+				continue
+			}
+			head := g
+			if i := strings.IndexByte(g, '\n'); i >= 0 {
+				head = g[:i]
+			}
+			if !strings.Contains(head, "[select") {
+				busy = true
+				break
+			}
+		}
+		if !busy {
+			return nil
+		}
+		if time.Now().After(deadline) {
+			return fmt.Errorf("infrastructure: probe calls still running after 30s")
+		}
+		time.Sleep(300 * time.Microsecond)
+	}
+}
+
+func waitNoPendingTeardown(id uid.ID) error {
+	deadline := time.Now().Add(30 * time.Second)
+	for envman.HasPendingTeardownForVerif(id) {
+		if time.Now().After(deadline) {
+			return fmt.Errorf("infrastructure: pending-teardown registration of %s not cleaned up within 30s", id)
+		}
+		time.Sleep(200 * time.Microsecond)
+	}
+	return nil
 }
 
 // parentRoleFull spells out task.parentRole (unexported there); workflow's task roles satisfy it.
